@@ -10,9 +10,13 @@ from concurrent.futures import ThreadPoolExecutor
 from . import common
 
 BOUNDARY = [0, 1, -1, 2, -2, 3, 7, -7, 10, 255, 256, -256, 65535, 2147483647, -2147483648, 2147483648, 4294967295, 4294967296,
-            4611686018427387904, -4611686018427387904, 6000000000000000000, -6000000000000000000, 9223372036854775806,
+            9007199254740992, 9007199254740993, -9007199254740993, 4611686018427387904, -4611686018427387904, 6000000000000000000, -6000000000000000000, 9223372036854775806,
             9223372036854775807, -9223372036854775807, -9223372036854775808]
 BINOPS = ["+", "-", "*", "/", "%", "==", "!=", "<", "<=", ">", ">="]
+# pairs of distinct integers that collapse under a lossy representation (double, 32-bit): always part of the comparison families
+NEAR_PAIRS = [(9007199254740992, 9007199254740993), (9007199254740993, 9007199254740992), (9223372036854775807, 9223372036854775806),
+              (9223372036854775000, 9223372036854775807), (-9007199254740993, -9007199254740992), (4294967296, 0), (4294967297, 1),
+              (2147483648, -2147483648), (-9223372036854775807, 9223372036854775807), (6000000000000000000, -6000000000000000000)]
 
 
 def lit(v):
@@ -98,6 +102,70 @@ def operand_order_program(rng):
                 L.append("    (println (%s (pb %d %s) (%s (== 1 1) (pb %d %s))))\n" % (op, k + 3000, la, rng.choice(["and", "or"]), k + 3001, rb))
     L.append("    (println level)\n    return 0\n}\nshadow main { assert (== 1 1) }\n")
     return "".join(L)
+
+
+def shadowed(fn_defs, calls):
+    """program text: function definitions, one shadow block per function printing its calls, and a main doing the same calls in order"""
+    L = []
+    allcalls = []
+    for name, text in fn_defs:
+        cs = [c for n, c in calls if n == name]
+        allcalls += cs
+        L.append(text)
+        L.append("shadow %s {\n%s    assert (== 1 1)\n}\n" % (name, "".join("    (println %s)\n" % c for c in cs)))
+    L.append("fn main() -> int {\n%s    return 0\n}\nshadow main { assert (== 1 1) }\n" % "".join("    (println %s)\n" % c for c in allcalls))
+    return "".join(L)
+
+
+def shadow_arith_program(op, pairs):
+    rt = "int" if op in ("+", "-", "*", "/", "%") else "bool"
+    return shadowed([("f", "fn f(a: int, b: int) -> %s {\n    return (%s a b)\n}\n" % (rt, op))], [("f", "(f %s %s)" % (lit(a), lit(b))) for a, b in pairs])
+
+
+def loops_program(rng):
+    """nested for/while loops with continue and break at chosen iterations (first, middle, last), statements after the inner loop,
+    loops inside if-branches: the control-flow signals must stay inside the loop they belong to"""
+    fns, calls = [], []
+    for k in range(3):
+        n, m = rng.randint(2, 4), rng.randint(2, 4)
+        ci, bi = rng.choice([0, m - 1, m - 1, rng.randrange(m)]), rng.choice([-1, -1, m - 1, rng.randrange(m)])
+        inner_kind = rng.choice(["for", "for", "while"])
+        outer_kind = rng.choice(["for", "while", "if"])
+        if inner_kind == "for":
+            inner = ("            for j in (range 0 %d) {\n                if (== j %d) { continue }\n                if (== j %d) { break }\n                set acc (+ acc (+ (* i 100) j))\n            }\n" % (m, ci, bi))
+        else:
+            inner = ("            let mut j: int = 0\n            while (< j %d) {\n                set j (+ j 1)\n                if (== j %d) { continue }\n                if (== j %d) { break }\n                set acc (+ acc (+ (* i 100) j))\n            }\n" % (m, ci + 1, bi + 1))
+        after = "            set acc (+ acc 1000000)\n            (println acc)\n"
+        if outer_kind == "for":
+            body = "        for i in (range 0 %d) {\n%s%s        }\n" % (n, inner, after)
+        elif outer_kind == "while":
+            body = "        let mut i: int = 0\n        while (< i %d) {\n%s%s            set i (+ i 1)\n        }\n" % (n, inner, after)
+        else:
+            body = "        let i: int = %d\n        if (> x 0) {\n%s%s        } else {\n            set acc -1\n        }\n" % (rng.randint(1, 3), inner, after)
+        name = "lp%d" % k
+        fns.append((name, "fn %s(x: int) -> int {\n    let mut acc: int = x\n    if true {\n%s    }\n    set acc (+ acc 7)\n    return acc\n}\n" % (name, body)))
+        for x in rng.sample([0, 1, 5, -3], 2):
+            calls.append((name, "(%s %d)" % (name, x)))
+    return shadowed(fns, calls)
+
+
+def float_program(rng):
+    """float -> int conversions and float comparisons (floats are compared and converted, never printed)"""
+    vals = [0.5, 2147483647.5, 2147483648.0, -2147483649.0, 4294967296.0, 9007199254740992.0, 1.0e15, -7.75, 123456.789, 3000000000.0]
+    fns = [("whole", "fn whole(x: float) -> int {\n    return (cast_int x)\n}\n"),
+           ("scaled", "fn scaled(x: float) -> int {\n    return (cast_int (* x 1000.0))\n}\n"),
+           ("fless", "fn fless(a: float, b: float) -> bool {\n    return (< a b)\n}\n"),
+           ("tofl", "fn tofl(n: int) -> bool {\n    return (< (cast_float n) 4000000000.0)\n}\n")]
+    calls = []
+    for v in rng.sample(vals, 6):
+        calls.append(("whole", "(whole %r)" % v))
+        calls.append(("scaled", "(scaled %r)" % (v if abs(v) < 1e12 else 2147483.648)))
+    for _ in range(4):
+        a, b = rng.choice(vals), rng.choice(vals)
+        calls.append(("fless", "(fless %r %r)" % (a, b)))
+    for n in (0, 3999999999, 4000000001, -5):
+        calls.append(("tofl", "(tofl %d)" % n))
+    return shadowed(fns, calls)
 
 
 def strconv_program(vals):
